@@ -1,6 +1,6 @@
 _C04_UNITS = CORE_PROPS + ["Attribs/StatusAttrib.cc", "Attribs/OpenVolumeMeshStatus.cc"]
 _c04_common = dict(harness="C04_gc.cpp", units=_C04_UNITS, unwind=26, object_bits=13, witness_any=True, checks="none", unwindset=["strlen.0:80"],
-                   timeout={"quick": 900, "thorough": 2400}, mem_gb=6)
+                   timeout={"quick": 900, "thorough": 2400}, mem_gb=3)
 def _c04_equiv(bases, fast1s, fast2s, seconds):
     out = []
     for b in bases:
